@@ -34,6 +34,18 @@ func init() {
 		Models:      []string{"M-json", "M-swag.ConcatJSON", "sort.Sort and OrderSchemaItems.Less (with its recover) executed from SSA", "map iteration = symbolic permutation"},
 	})
 	reg(&PropSpec{
+		ID: "C07", Prefix: "vh_C07_",
+		Quick:    Tier{Params: map[string]int{"exts": 1, "extras": 0, "name_len": 1, "sizes": 1, "any_shapes": 2, "vary": 0}},
+		Thorough: Tier{Params: map[string]int{"exts": 1, "extras": 1, "name_len": 1, "sizes": 1, "any_shapes": 2, "vary": 1, "vary_points": 60, "vary_alts": 4}},
+		Bounds: []string{
+			"one harness per model type (17) plus the union helper types: the symbolic document of C01 (presence of every keyword symbolic) in which one member at a time is replaced by a value of every JSON kind (null, bool, integer/float, empty/odd string, empty/mixed arrays, empty/odd objects incl. $ref:1, type:[\"\"], items:[]), duplicated with a second value of another kind, or spelled with another letter case (totality only)",
+			"decode -> encode -> decode -> encode executed from SSA; any interpreted panic, exceeded loop/recursion bound is reported",
+		},
+		Outside:     []string{"syntactically invalid bytes (rejected by encoding/json before any repo code runs: model rule), two corrupted members at once, deep nesting (encoding/json's own depth limit), extreme number literals"},
+		Assumptions: []string{"encoding/json checks syntax before calling UnmarshalJSON", "numbers: integer literals decode into int64 fields; a float literal decodes into an int64 field on a symbolic 'is integral' bit"},
+		Models:      []string{"M-json", "M-swag.ConcatJSON", "M-reflect"},
+	})
+	reg(&PropSpec{
 		ID: "C11", Prefix: "vh_C11_",
 		Quick:    Tier{Params: map[string]int{"segs": 2, "seg_len": 2}},
 		Thorough: Tier{Params: map[string]int{"segs": 3, "seg_len": 2}},
